@@ -40,6 +40,8 @@ def behaviour(draw, n, may_skip, out_topics):
         beh['skip'] = sorted(draw(st.sets(st.integers(0, n - 1), max_size=3)))
     if draw(st.integers(0, 3)) == 0:
         beh['empty'] = sorted(draw(st.sets(st.integers(0, n - 1), max_size=2)))
+    if beh.get('skip') and draw(st.booleans()):     # an empty set (or a set without the subscribed topics) right after a skipped id
+        beh['empty'] = sorted(set(beh.get('empty') or []) | {s_ + 1 for s_ in beh['skip'] if s_ + 1 < n and s_ + 1 not in beh['skip']})
     beh['ret'] = draw(st.sampled_from(['dict', 'dict', 'dict', 'frame', 'callable', 'callable_frame']))
     if beh['ret'] in ('frame', 'callable_frame'):
         beh['topics'] = ['main']        # a lone Frame is published as 'main'
